@@ -43,7 +43,10 @@ func (m *PositionMapper) LSPToByte(pos protocol.Position) int {
 		return len(m.content)
 	}
 	byteOffset := m.lineStarts[line]
-	byteOffset += UTF16OffsetToByteOffset(m.lines[line], int(pos.Character))
+	// A character past the end of the line clamps to the end of its content:
+	// the "\r" of a CRLF line ending is part of the terminator, not of the line.
+	lineContent := strings.TrimSuffix(m.lines[line], "\r")
+	byteOffset += UTF16OffsetToByteOffset(lineContent, int(pos.Character))
 	return byteOffset
 }
 
